@@ -5,6 +5,7 @@ import (
 	"compress/flate"
 	"crypto/aes"
 	"crypto/cipher"
+	"crypto/des"
 	"crypto/rsa"
 	"crypto/sha1"
 	"crypto/sha256"
@@ -14,6 +15,7 @@ import (
 	"fmt"
 	"hash"
 	"io"
+	"strings"
 	"math/big"
 
 	"github.com/russellhaering/gosaml2/types"
@@ -38,6 +40,14 @@ var KeyAlgs = []string{types.MethodRSAOAEP, types.MethodRSAOAEP2, types.MethodRS
 var OAEPDigests = []string{"", types.MethodSHA1, types.MethodSHA256, types.MethodSHA512}
 
 func KeySizeOf(dataAlg string) int {
+	switch {
+	case strings.Contains(dataAlg, "aes192"), strings.Contains(dataAlg, "tripledes"):
+		return 24
+	case strings.Contains(dataAlg, "aes256"):
+		return 32
+	case strings.Contains(dataAlg, "aes128"):
+		return 16
+	}
 	switch dataAlg {
 	case types.MethodAES128GCM, types.MethodAES128CBC:
 		return 16
@@ -79,15 +89,22 @@ func (o *EncOpts) Sig() string {
 // SymEncrypt encrypts pt under key with the data algorithm (XML-Enc framing: IV/nonce
 // prefix; CBC with XML-Enc padding whose filler bytes are arbitrary).
 func SymEncrypt(dataAlg string, key, pt []byte, rnd io.Reader) ([]byte, error) {
-	blk, err := aes.NewCipher(key)
+	var blk cipher.Block
+	var err error
+	if strings.Contains(dataAlg, "tripledes") {
+		blk, err = des.NewTripleDESCipher(key)
+	} else {
+		blk, err = aes.NewCipher(key)
+	}
 	if err != nil {
 		return nil, err
 	}
-	switch dataAlg {
-	case types.MethodAES128CBC, types.MethodAES256CBC:
-		iv := make([]byte, 16)
+	bs := blk.BlockSize()
+	switch {
+	case strings.HasSuffix(dataAlg, "-cbc"):
+		iv := make([]byte, bs)
 		io.ReadFull(rnd, iv)
-		pad := 16 - len(pt)%16
+		pad := bs - len(pt)%bs
 		p := append(append([]byte{}, pt...), make([]byte, pad)...)
 		io.ReadFull(rnd, p[len(pt):])
 		p[len(p)-1] = byte(pad)
